@@ -129,16 +129,20 @@ impl Core {
                 .get_parent_block(&parent)
                 .await?
                 .expect("We should have all the ancestors by now");
+            // Stop at the last block we already delivered (or at the genesis placeholder).
+            if ancestor.round <= self.last_committed_round {
+                break;
+            }
             to_commit.push_front(ancestor.clone());
             parent = ancestor;
         }
-        to_commit.push_front(block.clone());
+        to_commit.push_back(block.clone());
 
         // Save the last committed block.
         self.last_committed_round = block.round;
 
         // Send all the newly committed blocks to the node's application layer.
-        while let Some(block) = to_commit.pop_back() {
+        while let Some(block) = to_commit.pop_front() {
             if !block.payload.is_empty() {
                 info!("Committed {}", block);
 
